@@ -151,6 +151,63 @@ let model_line line =
 
 let verdict b why = if b then "PASS" else "FAIL " ^ why
 
+(* ---------- monitors for whole-chain cases: the property's projection of the implementation's
+   observation must equal the same projection of the (proved) model's observation ---------- *)
+let split_sections s =
+  List.map (fun sec -> match split_ws sec with h :: t -> (h, t) | [] -> ("", []))
+    (String.split_on_char ';' s)
+let sec name secs = try List.assoc name secs with Not_found -> []
+let starts_with c t = String.length t > 0 && t.[0] = c
+let before ch t = match String.index_opt t ch with Some i -> String.sub t 0 i | None -> t
+let strip_wf s =
+  let n = String.length s in
+  if n >= 7 && String.sub s (n - 7) 5 = " ; WF" then String.sub s 0 (n - 7) else s
+
+let rmap_part c tok =   (* keep pid and the :d.. or :u.. entries *)
+  match String.split_on_char ':' tok with
+  | pid :: es -> pid ^ String.concat "" (List.filter_map (fun e -> if starts_with c e then Some (":" ^ e) else None) es)
+  | [] -> tok
+
+let has_class secs cls =
+  List.exists (fun t -> match String.split_on_char ':' t with
+    | [_; c; _; "1"] -> List.mem c cls | _ -> false) (sec "ORDER" secs)
+
+let projection prop secs =
+  let bind = sec "BIND" secs in
+  let status = match bind with st :: _ -> [st] | [] -> ["?"] in
+  let log = sec "LOG" secs and res = sec "RES" secs and order = sec "ORDER" secs and rmap = sec "RMAP" secs in
+  match prop with
+  | "C01" -> status @ List.map (rmap_part 'd') rmap
+             @ List.filter_map (fun t -> if starts_with 'C' t || starts_with 'E' t then Some (before '>' t) else None) log
+  | "C02" -> status @ List.map (rmap_part 'u') rmap
+             @ List.filter (starts_with 'J') log @ List.filter (starts_with 'x') res
+  | "C05" -> status @ order @ List.map (before '(') log
+  | "C07" -> if has_class secs ["1"; "2"] then status @ log @ res else status
+  | "C03" -> status @ order @ List.sort_uniq compare (List.filter_map (fun t ->
+               if starts_with 'C' t || starts_with 'E' t then Some (before '(' t) else None) log)
+  | "C04" -> status @ List.map (fun t -> if t = "P" then "P" else "-") res
+  | "C06" -> status @ order @ List.filter (starts_with 'C') (List.map (before '(') log) @ List.filter (starts_with 'i') res
+  | "C15" | "C14" | "C16" -> status @ order
+  | _ -> status @ order @ rmap @ res @ log
+
+let first_diff a b =
+  let rec go i a b = match a, b with
+    | [], [] -> "-"
+    | x :: a', y :: b' -> if x = y then go (i + 1) a' b' else Printf.sprintf "item %d: implementation %s, reference %s" i x y
+    | x :: _, [] -> Printf.sprintf "item %d: implementation has extra %s" i x
+    | [], y :: _ -> Printf.sprintf "item %d: implementation lacks %s" i y in
+  go 0 a b
+
+let monitor_chain prop case_toks impl =
+  let (te, c) = parse_chain case_toks in
+  let model = strip_wf (show_obs te (model_run c)) in
+  let impl_secs = split_sections impl and model_secs = split_sections model in
+  if not (starts_with 'B' impl) then "FAIL implementation did not return an observation: " ^ impl
+  else
+    let pi = projection prop impl_secs and pm = projection prop model_secs in
+    (* a Bind error class is informational: err matches err *)
+    if pi = pm then "PASS" else "FAIL " ^ prop ^ " projection differs at " ^ first_diff pi pm
+
 let monitor_line prop line =
   match String.split_on_char '\t' line with
   | [case; obs] ->
@@ -159,6 +216,7 @@ let monitor_line prop line =
        (match parse_edits_obs obs with
         | None -> "FAIL implementation did not return: " ^ obs
         | Some o -> verdict (mon_C18 (parse_edits rest) o) "execution order is not the edited list (or an invalid directive was accepted / a valid one rejected)")
+     | _, "K" :: rest -> monitor_chain prop rest obs
      | _ -> "PASS (no monitor for this stream)")
   | _ -> "FAIL malformed monitor input"
 
